@@ -478,7 +478,18 @@ def rule_copy(ck, methods, all_acc):
     for lp in loops:
         tnames = [t.id for t in ast.walk(lp.target) if isinstance(t, ast.Name)]
         adds = [c for st in lp.body for c in q.calls(st) if q.dotted(c.func) == "self.add"]
-        ok = len(adds) >= 1 and all([q.dotted(x) for x in c.args[:2]] == tnames[:2] and len(tnames) == 2 for c in adds)
+        def add_ok(c):
+            if len(tnames) == 2 and [q.dotted(x) for x in c.args[:2]] == tnames[:2]:
+                return True
+            if len(tnames) == 1 and len(c.args) == 1 and isinstance(c.args[0], ast.Starred) and q.dotted(c.args[0].value) == tnames[0]:
+                return True    # for pair in src.get_all(): self.add(*pair)
+            if len(tnames) == 2 and [q.dotted(x) for x in c.args[:2]] == tnames[1::-1]:
+                return False   # name and value swapped: positively wrong
+            if len(tnames) == 1 and len(c.args) == 2 and all(isinstance(x, ast.Subscript) and q.dotted(x.value) == tnames[0] for x in c.args[:2]):
+                idx = [getattr(x.slice, "value", None) for x in c.args[:2]]
+                return idx == [0, 1]
+            raise AnalysisError("C06.copy-independent: arguments of self.add in the copy loop not recognised: %s" % q.unparse(c))
+        ok = len(adds) >= 1 and all(add_ok(c) for c in adds)
         n += 1
         ck.ob("C06.copy-independent", init, lp, ok, "copy constructor re-adds every (name, value) pair of the source through self.add(name, value)")
         # the loop is taken for an HTTPHeaders argument
